@@ -94,6 +94,8 @@ def seeded(update_meta=True):
     /verif/benign/<id>/patch.diff (behaviour-preserving refactor) must NOT be (exit 0, or 2 = undecided, never 1)"""
     sd = os.path.join(ROOT, "seeded")
     rc = 0
+    if os.environ.get("VERIF_SELFTEST_NO_UPDATE"):          # a robustness run under another VERIF_SEED: report only
+        update_meta = False
     from concurrent.futures import ThreadPoolExecutor
     workers = int(os.environ.get("VERIF_SELFTEST_WORKERS", "3"))
     only = os.environ.get("VERIF_SELFTEST_ONLY")          # regex on the seed name, e.g. 'C0[12]-'
